@@ -7,7 +7,8 @@ from .term import DEFAULT_STATE
 
 # obs tuple indices
 CLS, BASE, CHARS, RENDERS, VALID, PARSABLE, STRICT, PROBE, PAYLOAD, TABLE = range(10)
-PRIOR = '\x1b[1;3;4;5;7;8;9;11;26;51;53;31;41;58;5;1m'     # a terminal that is not in its default state
+ALLSET = '1;3;4;5;7;8;9;11;26;51;53;31;41;58;5;1'
+PRIOR = '\x1b[' + ALLSET + 'm'     # a terminal that is not in its default state
 SGR_RE = re.compile('\x1b\\[[^\x40-\x7e]*m')
 RESET_START_RE = re.compile('^\x1b\\[0?(;[^\x40-\x7e]*)?m')
 
@@ -128,6 +129,8 @@ def step_oracles(term, props, ops, recs, fails):
         if post is None:
             if 'C09' in props:
                 fails.append({'oracle': 'C09.observe', 'step': t, 'msg': 'observing a value raised: %s' % rec.get('obs_error')})
+            if 'C08' in props:
+                fails.append({'oracle': 'C08.unchanged', 'step': t, 'msg': 'after %s some pool object can no longer be observed: %s' % (name, rec.get('obs_error'))})
             return
         ok = res[0] == 'ok'
         ridx = list(res[1]) if ok else []
@@ -268,12 +271,15 @@ def o_c06(term, t, op, pre, post, ridx, fails):
             if not top:
                 # the displayed value of every effect an existing setting sets or clears is unchanged
                 touched = set()
+                pending = False
                 for x in old:
-                    e = term.info(x)[2]
-                    if e >= 0:
-                        touched.add(e)
-                    else:
-                        touched = set(range(14))      # reset / multi-code: touches everything
+                    a1, a2 = term.style([ALLSET, x]), term.style([x])
+                    if a1 is None or a2 is None:
+                        pending = True
+                        continue
+                    touched |= set(e for e in range(14) if a1[e] == a2[e])
+                if pending:
+                    continue
                 for e in touched:
                     if s_old[e] != s_new[e]:
                         fails.append({'oracle': 'C06.nontop', 'step': t, 'msg': 'topmost=False changed the displayed value of an existing effect on character %d: %s -> %s' % (k, old, new)})
@@ -545,6 +551,15 @@ def o_c11(term, t, op, pre, post, ridx, fails):
 def true_offsets(base, pieces, sep, maxsplit, right):
     """offsets of str.split / rsplit pieces in base, computed from the str result alone"""
     offs, pos = [], 0
+    if sep is None and right:
+        # rsplit: every piece ends at the last non-whitespace character before the start of the next piece
+        pos = len(base)
+        for p in reversed(pieces):
+            while pos > 0 and base[pos - 1].isspace():
+                pos -= 1
+            pos -= len(p)
+            offs.append(pos)
+        return list(reversed(offs))
     if sep is None:
         # every piece starts at the first non-whitespace character after the end of the previous piece
         for p in pieces:
